@@ -58,7 +58,7 @@ def _judge(ctx, work, recs, by_id):
 
 
 BROADCAST = {"quick": dict(Forms={"scalar", "list", "tuple", "nested"}, KSet={1, 2, 3}, RSet={0, 1, 4}, CSet={1, 3}, MaxOps=2),
-             "thorough": dict(Forms={"scalar", "list", "tuple", "nested"}, KSet={1, 2, 3}, RSet={0, 1, 2, 4, 5}, CSet={1, 2, 3, 4}, MaxOps=2)}
+             "thorough": dict(Forms={"scalar", "list", "tuple", "nested"}, KSet={1, 2, 3}, RSet={0, 1, 2, 4}, CSet={1, 2, 3}, MaxOps=2)}
 BC_INV = ["TypeOK", "ToListIsIloc", "Recycles", "UpdateIsLocal", "UpdateExpands"]
 
 
